@@ -198,11 +198,16 @@ def run(ctx):
         # design model checks run in the background while the race build is made / used
         # ConcCert: the certificate-pool revision cache, model only (no trusted-certificate directory in the mode of C40);
         # ConcCert_reset.cfg is the mark-before-install order of ResetCertificates (pdfcpu_eutl build), refuted by TLC
-        dcfgs = [("Conc_quick.cfg", None, 4), ("Conc_broken.cfg", "CompleteGen", 2), ("Conc_late.cfg", "NoRace", 1),
+        dcfgs = [("Conc_quick.cfg", None, 4), ("Conc_broken.cfg", "CompleteGen", 2), ("Conc_late.cfg", "NoRace", 1), ("Conc_inversion.cfg", "NoStuck", 2),
                  ("ConcCert_import.cfg", None, 1), ("ConcCert_reset.cfg", "Coherent", 1)]
         if not ctx.quick:
             dcfgs = [("Conc_thorough.cfg", None, 8), ("Conc_live.cfg", None, 2)] + dcfgs[1:]
         dfut = [pool.submit(_design, ctx, c, e, w) for c, e, w in dcfgs]
+
+        # life-cycle schedules (first lookup / lookup / reload vs. a directory scan held open), generated by TLC
+        lcases = os.path.join(d, "life-cases.ndjson")
+        lfut = pool.submit(vlib.run_tlc, "ConcLife", "ConcLife_quick.cfg" if ctx.quick else "ConcLife_thorough.cfg", workers=2, timeout=900,
+                           payloads={"CASE": lcases})
 
         binp = _build(True)
         plain = None if ctx.quick else _build(False)
@@ -216,7 +221,7 @@ def run(ctx):
         procs = []
         for k, P in enumerate(PROCS):
             procs.append(Proc("fonts-p%d" % P, ["fonts", "--work", os.path.join(d, "f%d" % P), "--stage", stage, "--out", os.path.join(d, "hist-%d.ndjson" % P),
-                                                "--seed", str(seed), "--rounds", str(rounds_fonts), "--base", str(P * 10000)], P, d, 900))
+                                                "--seed", str(seed), "--rounds", str(rounds_fonts), "--base", str(P * 10000), "--watchdog", "60"], P, d, 900))
             if ctx.quick:   # every process gets two goroutine counts; (seed, P) rotate through all combinations
                 sizes = [sizes_all[(seed + k) % 5], sizes_all[(seed + k + 2) % 5]]
                 if P == 1:
@@ -224,7 +229,7 @@ def run(ctx):
             else:           # several rounds per goroutine count, different seeded operation mixes per round
                 sizes = sizes_all * 3 + [12, 24]
             procs.append(Proc("ops-p%d" % P, ["ops", "--mode", "conc", "--work", os.path.join(d, "o%d" % P), "--stage", stage, "--out", os.path.join(d, "ops-%d.ndjson" % P),
-                                              "--seed", str(seed), "--sizes", ",".join(map(str, sorted(set(sizes)) if ctx.quick else sizes))], P, d, 1500))
+                                              "--seed", str(seed), "--post", "short" if ctx.quick else "full", "--sizes", ",".join(map(str, sorted(set(sizes)) if ctx.quick else sizes))], P, d, 1500))
         for rep in (0, 1):
             procs.append(Proc("solo-%d" % rep, ["ops", "--mode", "solo", "--rep", str(rep), "--work", os.path.join(d, "s%d" % rep), "--stage", stage,
                                                 "--out", os.path.join(d, "solo-%d.ndjson" % rep)], 1, d, 900))
@@ -232,7 +237,7 @@ def run(ctx):
         procs.append(control)
         # longest first; at most 6 race processes at a time
         order = sorted(procs, key=lambda p: (0 if p.name.startswith("ops") else 1 if p.name.startswith("solo") else 2, -p.procs))
-        rpool = concurrent.futures.ThreadPoolExecutor(max_workers=6)
+        rpool = concurrent.futures.ThreadPoolExecutor(max_workers=8)
         futs = [rpool.submit(_run_proc, binp, p) for p in order]
         extra_hist = []
         if plain:   # many more schedules for the linearizability check from the fast non-race build
@@ -241,20 +246,49 @@ def run(ctx):
                                                 "--seed", str(seed + 1000), "--rounds", "400", "--base", str(P * 10000 + 5000)], P, d, 900)
                 futs.append(rpool.submit(_run_proc, plain, q))
                 extra_hist.append(q)
+        lres = lfut.result()
+        if lres.violated or not lres.ok:
+            raise vlib.HarnessError("design model ConcLife violates %s:\n%s" % (lres.violated, lres.error_state))
+        ev.tlc(lres, "ConcLife")
+        cases, seenc = [], set()
+        for c in vlib.read_ndjson(lcases):
+            k = json.dumps(c, sort_keys=True)
+            if k not in seenc:
+                seenc.add(k)
+                cases.append(c)
+        cases.sort(key=lambda c: (len(c["kinds"]), c["kinds"], c["openAt"]))
+        if ctx.quick:   # every schedule of <= 2 calls, a seeded sample of the 3-call schedules
+            import random
+            rnd = random.Random(seed)
+            long3 = [c for c in cases if len(c["kinds"]) == 3]
+            cases = [c for c in cases if len(c["kinds"]) <= 2] + rnd.sample(long3, min(6, len(long3)))
+        lprocs = []
+        for i, c in enumerate(cases):
+            c["id"] = i + 1
+            q = Proc("life-%d" % (i + 1), ["life", "--work", os.path.join(d, "l%d" % (i + 1)), "--stage", stage, "--out", os.path.join(d, "life-%d.ndjson" % (i + 1)),
+                                           "--watchdog", "20", "--case", json.dumps(c)], PROCS[(i + seed) % len(PROCS)], d, 120)
+            q.case = c
+            lprocs.append(q)
+            futs.append(rpool.submit(_run_proc, binp, q))
         for f in futs:
             f.result()
         rpool.shutdown()
 
         # ---- verdicts 1: races, crashes, exit codes
         race_keys = {}
-        for p in procs + extra_hist:
+        for p in procs + extra_hist + lprocs:
             if p is control:
                 continue
             for r in p.races:
                 if r["key"] not in race_keys:
                     race_keys[r["key"]] = (r, p.name)
             cr = _crash(p)
-            if cr:
+            if p.summary.get("hang") and p not in lprocs:
+                ctx.report("fontcache|hang" if p.name.startswith("fonts") else "ops|hang",
+                           "process %s (GOMAXPROCS=%d): goroutines never finished round %s (in-process watchdog); programs %s; blocked goroutines: %s" % (
+                               p.name, p.procs, p.summary.get("round"), p.summary.get("programs"), str(p.summary.get("stacks"))[:1500]),
+                           {"process": p.name, "args": p.args, "GOMAXPROCS": p.procs, "summary": p.summary})
+            elif cr:
                 ctx.report(cr[0], cr[1], {"process": p.name, "args": p.args, "GOMAXPROCS": p.procs, "output": p.out[-4000:]})
             elif p.rc not in (0, 66) or (p.rc == 66 and not p.races) or not p.summary:
                 raise vlib.HarnessError("conc %s failed (rc=%s):\n%s" % (p.name, p.rc, p.out[-3000:]))
@@ -266,16 +300,41 @@ def run(ctx):
             raise vlib.HarnessError("race detector control: no race reported for DisableConfigDir concurrent with NewDefaultConfiguration "
                                     "(rc=%s) - the detector is not active in this build\n%s" % (control.rc, control.out[-1500:]))
 
+        # ---- verdicts 1b: life-cycle schedules replayed in fresh processes against the expectations of ConcLife.tla
+        hangs = 0
+        lsamples = []
+        for q in lprocs:
+            rr = vlib.read_ndjson(q.args[q.args.index("--out") + 1])
+            if len(rr) != 1:
+                raise vlib.HarnessError("life replay %s wrote no result:\n%s" % (q.name, q.out[-1500:]))
+            r, c = rr[0], q.case
+            sched = "%s, gate opens after %d call(s), GOMAXPROCS=%d" % (" -> ".join(c["kinds"]), c["openAt"], q.procs)
+            lsamples.append({"schedule": c, "result": {k: r[k] for k in ("arrived", "hang", "calls")}})
+            if r["hang"]:
+                hangs += 1
+                stuck = [x["api"] for x in r["calls"] if not x["returned"]]
+                ctx.report("fontcache|hang", "font cache calls never return (watchdog 20 s) in the schedule [%s]: stuck %s; goroutines: %s" % (sched, stuck, r["stacks"][:1500]),
+                           {"schedule": c, "result": r})
+                continue
+            for i, (x, e) in enumerate(zip(r["calls"], c["expect"])):
+                if r["arrived"] and x["before_open"]:
+                    ctx.report("fontcache|early-return", "call %d (%s) returned while the font directory could not be read yet, schedule [%s]" % (i + 1, x["api"], sched), {"schedule": c, "result": r})
+                if x["err"]:
+                    ctx.report("fontcache|life-error", "call %d (%s) failed in the schedule [%s]: %s" % (i + 1, x["api"], sched, x["err"]), {"schedule": c, "result": r})
+                elif (x["api"] == "names" and x["obs"] != e["obs"]) or (x["api"] in ("isuser", "width") and x["found"] != e["found"]):
+                    ctx.report("fontcache|life-result", "call %d (%s) saw fonts=%s found=%d, the model expects fonts=%s found=%d, schedule [%s]" % (
+                        i + 1, x["api"], x["obs"], x["found"], e["obs"], e["found"], sched), {"schedule": c, "result": r})
+
         # ---- verdicts 2: linearizability of the recorded histories (TLC)
         hists = []
         for p in procs + extra_hist:
             if p.name.startswith("fonts"):
                 hists += vlib.read_ndjson(p.args[p.args.index("--out") + 1])
-        if not hists:
+        if not hists and not any(p.summary.get("hang") for p in procs):
             raise vlib.HarnessError("no histories recorded")
-        if max(len(h["ops"]) for h in hists) > 16:
+        if max([len(h["ops"]) for h in hists], default=0) > 16:
             raise vlib.HarnessError("history longer than 16 operations")
-        syn = _synthetic(hists[0]["gens"], hists[0]["names"], 900000)
+        syn = _synthetic(hists[0]["gens"] if hists else [[1, 2, 3], [1, 4, 5], [1, 6, 7]], hists[0]["names"] if hists else [], 900000)
         allh = os.path.join(d, "hist.ndjson")
         vlib.write_ndjson(allh, hists + syn)
         lin, bad = os.path.join(d, "lin.ndjson"), os.path.join(d, "bad.ndjson")
@@ -305,8 +364,28 @@ def run(ctx):
                 if q.rc != 0:
                     raise vlib.HarnessError("confirmation run failed: " + q.out[-1500:])
                 solo[(op, inp)] += vlib.read_ndjson(os.path.join(d, "confirm.ndjson"))
+        # a solo result that fails or is not reproducible inside the sequential solo process is re-run in fresh processes:
+        # if the result depends on what the process did before, the judge sees disagreeing solo runs ("baseline")
+        def fresh(op, inp, rep):
+            q = Proc("fresh-%s-%d" % (op, rep), ["ops", "--mode", "solo", "--rep", str(rep), "--only", "%s:%s" % (op, inp),
+                                                  "--work", os.path.join(d, "fr-%s-%s-%d" % (op, inp, rep)), "--stage", stage,
+                                                  "--out", os.path.join(d, "fresh.ndjson")], 1, d, 600)
+            _run_proc(binp, q)
+            if q.rc not in (0, 66):
+                raise vlib.HarnessError("fresh solo run failed: " + q.out[-1500:])
+            return vlib.read_ndjson(os.path.join(d, "fresh.ndjson"))
+        sequential = []
+        for (op, inp), v in sorted(solo.items()):
+            if any(x["err"] for x in v) or len({x["proj"] for x in v}) > 1:
+                first = v[0]
+                for rep in (2, 3):
+                    v += fresh(op, inp, rep)
+                if all(x["err"] == v[0]["err"] for x in v) and v[0]["err"]:
+                    raise vlib.HarnessError("%s on %s fails even in a fresh process (harness input unusable): %s" % (op, inp, v[0]["err"]))
+                first = dict(first, procs=1, n=1, round=-2, g=0)
+                sequential.append(first)
         recs = []
-        for i, r in enumerate(conc):
+        for i, r in enumerate(conc + sequential):
             s = solo.get((r["op"], r["input"]))
             if not s:
                 raise vlib.HarnessError("no solo baseline for %s on %s" % (r["op"], r["input"]))
@@ -333,13 +412,11 @@ def run(ctx):
                            "concurrent run: err=%r proj=%s" % (r["op"], r["input"], len(r["solo_err"]), sorted(set(r["solo_err"])), sorted(set(r["solo_proj"])),
                                                               r["conc"]["err"], r["conc"]["proj"]), r)
                 continue
-            ctx.report("nondet|%s|%s|%s" % (r["op"], r["input"], b["what"]),
-                       "%s on %s run concurrently (GOMAXPROCS=%d, %d goroutines) differs from the run alone in its %s: concurrent err=%r proj=%s bag=%s, "
-                       "alone err=%r proj=%s bag=%s" % (r["op"], r["input"], r["procs"], r["n"], b["what"], r["conc"]["err"], r["conc"]["proj"], r["conc"]["bag"],
-                                                        r["solo_err"][0], r["solo_proj"][0], r["solo_bag"][0]), r)
-        failing_solo = sorted({"%s:%s" % k for k, v in solo.items() if v[0]["err"]})
-        if failing_solo:
-            raise vlib.HarnessError("operations fail even when run alone (harness inputs unusable): %s" % failing_solo)
+            how = "run concurrently (GOMAXPROCS=%d, %d goroutines)" % (r["procs"], r["n"]) if r["round"] >= 0 else \
+                  "run alone AFTER the concurrent phase in the same process (GOMAXPROCS=%d)" % r["procs"] if r["round"] == -1 else "run in the sequential solo process"
+            msg = "%s on %s %s differs from the run alone in its %s: this run err=%r proj=%s bag=%s, alone err=%r proj=%s bag=%s" % (
+                r["op"], r["input"], how, b["what"], r["conc"]["err"], r["conc"]["proj"], r["conc"]["bag"], r["solo_err"][-1], r["solo_proj"][-1], r["solo_bag"][-1])
+            ctx.report("nondet|%s|%s|%s" % (r["op"], r["input"], b["what"]), msg, r)
 
         # ---- linearizability results
         tres = tfut.result()
@@ -385,31 +462,44 @@ def run(ctx):
         overlapping = sum(p.summary.get("overlapping_pairs", 0) for p in procs + extra_hist if p.name.startswith("fonts"))
         nt = lambda h: sum(1 for i, a in enumerate(h["ops"]) for b2 in h["ops"][i + 1:] if a["g"] != b2["g"] and b2["call"] < a["ret"])
         nontrivial_h = sum(1 for h in hists if nt(h) > 0 and any(o["op"] == "reload" for o in h["ops"]))
-        combos = sorted({(r["procs"], r["n"]) for r in conc})
-        opkinds = sorted({r["op"] for r in conc})
-        ev.cov(evaluations=len(hists) + len(conc), distinct_nontrivial=nontrivial_h + len({(r["procs"], r["n"], r["op"], r["input"]) for r in conc}),
-               traces_validated_against_impl=len(hists) + len(recs),
+        ctasks = [r for r in conc if r["round"] >= 0]
+        ptasks = [r for r in conc if r["round"] == -1]
+        combos = sorted({(r["procs"], r["n"]) for r in ctasks})
+        opkinds = sorted({r["op"] for r in ctasks})
+        overlap_life = sum(1 for q in lprocs if 1 <= q.case["openAt"] and len(q.case["kinds"]) >= 2)
+        ev.cov(evaluations=len(hists) + len(conc) + len(lprocs),
+               distinct_nontrivial=nontrivial_h + len({(r["procs"], r["n"], r["op"], r["input"]) for r in ctasks}) + overlap_life,
+               traces_validated_against_impl=len(hists) + len(recs) + len(lprocs),
                rule="evaluation = one recorded font-cache history (<= 16 operations of concurrent goroutines, one process round) checked for "
                     "linearizability by TLC, or one concurrently executed API task compared with its solo run by TLC; non-trivial = histories with "
                     "really overlapping operations of different goroutines and at least one reload, plus distinct (GOMAXPROCS, goroutines, "
-                    "operation, input) task classes; schedules are sampled by the Go runtime, not enumerated",
+                    "operation, input) task classes, plus life-cycle schedules in which calls are issued while a directory scan is held open; "
+                    "life-cycle schedules are enumerated by TLC (ConcLife.tla) and replayed one per fresh process; the other schedules are "
+                    "sampled by the Go runtime, not enumerated",
                exhaustive=False, histories=len(hists), histories_linearizable=len(hists) - nonlin, histories_with_overlap=nontrivial_h,
                overlapping_operation_pairs=overlapping, first_load_histories=sum(1 for h in hists if h["init"]["cache"] == -1),
                longer_histories_via_porcupine=0,
                control_histories_rejected=sum(1 for s in syn if s["synthetic"] != "accept"),
-               concurrent_tasks=len(conc), task_kinds=opkinds, gomaxprocs_x_goroutines=["%dx%d" % c for c in combos],
+               lifecycle_schedules=len(lprocs), lifecycle_schedules_with_calls_during_held_scan=overlap_life, lifecycle_hangs=hangs,
+               concurrent_tasks=len(ctasks), post_phase_solo_tasks=len(ptasks), sequential_solo_anomalies=len(sequential), task_kinds=opkinds, gomaxprocs_x_goroutines=["%dx%d" % c for c in combos],
                nondeterministic_tasks=nondet, bag_comparable_tasks=sum(1 for r in recs if len(set(r["solo_bag"])) == 1),
                race_reports=sum(len(p.races) for p in procs + extra_hist if p is not control), distinct_races=len(race_keys),
                violation_instances=dict(seen),
                race_detector_control="fired (%d reports)" % len(control.races),
-               process_runs=[{"name": p.name, "GOMAXPROCS": p.procs, "rc": p.rc, "wall_s": round(p.wall, 1), "races": len(p.races)} for p in procs + extra_hist])
-        ev.sample({k: hists[0][k] for k in ("h", "procs", "init", "gens", "ops")})
-        mid = hists[len(hists) // 2]
-        ev.sample({k: mid[k] for k in ("h", "procs", "init", "ops")})
-        for r in recs[:2]:
-            ev.sample(r)
+               process_runs=[{"name": p.name, "GOMAXPROCS": p.procs, "rc": p.rc, "wall_s": round(p.wall, 1), "races": len(p.races)} for p in procs + extra_hist],
+               lifecycle_process_wall_s=round(sum(q.wall for q in lprocs), 1))
+        if hists:
+            ev.sample({k: hists[0][k] for k in ("h", "procs", "init", "gens", "ops")})
+            mid = hists[len(hists) // 2]
+            ev.sample({k: mid[k] for k in ("h", "procs", "init", "ops")})
+        if recs:
+            ev.sample(recs[0])
+        ev.sample(lsamples[len(lsamples) // 2] if lsamples else {})
         ev.assume("schedules are sampled by the Go runtime (GOMAXPROCS 1,2,4,16; 2-32 goroutines; seeded delays), not enumerated; TLC enumerates interleavings only on the design model",
                   "documented mode: api.DisableConfigDir(), font.UserFontDir and loggers are set once before goroutines start; every goroutine has its own input copy, directory and configuration",
+                  "life-cycle replay: the directory scan is held open by a named pipe as the first font file of the directory; 'hang' = a call has not returned 20 s after the gate opened and all calls were issued",
+                  "inputs include a hand-built 'repaired' document (classic xref section without object 0) and object-freeing operations (merge destination, page removal, optimize); "
+                  "every ops process re-runs the cheap operations alone after its concurrent phase; solo results that fail or vary inside the sequential solo process are re-run in fresh processes",
                   "harness discipline: the font directory is never modified while pdfcpu reads it (RW lock between the directory mutator and (re)loads); files appear/disappear atomically (hard links)",
                   "histories are kept <= 16 operations per round so TLC itself searches the linearization; porcupine is not used",
                   "a lookup is two linearization points (Load, Read) when the fonts are not loaded yet, as the code calls LoadUserFonts() before reading",
